@@ -1235,3 +1235,84 @@ def _c15b_worker(args):
                 res["samples"].append(dict(label, dry_lines=recs[:5]))
         sb.destroy()
     return res
+
+
+# ------------------------------------------------------------------ C18 CLI cross-check (thorough)
+def table_py(a, b, z):
+    """The documented decision table as a function of equality only (written from the statement)."""
+    if a is None and b is None:
+        return "Noop"
+    if a is not None and b is not None:
+        if a == b:
+            return "Noop" if z == a else "ConvergeIdentical"
+        ad, bd = z != a, z != b
+        if ad and not bd:
+            return "PropagateAtoB"
+        if bd and not ad:
+            return "PropagateBtoA"
+        return "Conflict(BothChanged)"
+    if b is None:
+        if z is None:
+            return "PropagateAtoB"
+        return "DeleteA" if z == a else "Conflict(DeleteVsModify)"
+    if z is None:
+        return "PropagateBtoA"
+    return "DeleteB" if z == b else "Conflict(DeleteVsModify)"
+
+
+def _c18cli_worker(args):
+    seedv, lo, hi, wroot = args
+    res = {"evaluations": 0, "distinct": set(), "viol": [], "counters": {}, "samples": [], "inconclusive": 0}
+
+    def cnt(k, n=1):
+        res["counters"][k] = res["counters"].get(k, 0) + n
+
+    vals = {"x": b"content-x", "y": b"content-y-longer", "z": b"zzz"}
+    paths = ["p0", "d/p1", "p 2"]
+    for idx in range(lo, hi):
+        rng = SplitMix.derive(seedv, "c18cli", idx)
+        sb = Sandbox(os.path.join(wroot, "w%d" % lo))
+        base = {p: rng.pick([None, "x", "x", "y"]) for p in paths}
+        with_archive = rng.chance(3, 4)
+        if with_archive:
+            for p, v in base.items():
+                if v:
+                    for s in "AB":
+                        write_file(os.path.join(sb.side(s), p), vals[v])
+            r0 = bisync(sb)
+            if not completed(r0):
+                sb.destroy()
+                continue
+        a = {p: rng.pick([None, base[p] or "x", "y", "z"]) for p in paths}
+        b = {p: rng.pick([None, base[p] or "x", "y", "z"]) for p in paths}
+        for side, m in (("A", a), ("B", b)):
+            for p in paths:
+                full = os.path.join(sb.side(side), p)
+                if m[p] is None:
+                    if os.path.exists(full):
+                        os.unlink(full)
+                else:
+                    write_file(full, vals[m[p]])
+        rd = bisync(sb, dry=True)
+        got = dict((p, act) for act, p in parse_dry_lines(rd.stdout))
+        res["evaluations"] += 1
+        want = {}
+        for p in paths:
+            t = table_py(a[p], b[p], base[p] if with_archive else None)
+            if t != "Noop":
+                want[p] = t
+        if got != want:
+            res["viol"].append(("C18|cli|dry-run-plan-differs-from-table", {"index": idx, "a": a, "b": b, "base": base, "archive": with_archive, "got": got, "want": want, "stdout": rd.stdout[-300:]}))
+        for t in want.values():
+            cnt("cli_actions[%s]" % t)
+        if want:
+            res["distinct"].add("cli|" + ",".join(sorted(set(want.values()))) + ("|trusted" if with_archive else "|no-base"))
+        if len(res["samples"]) < 1 and want:
+            res["samples"].append({"a": a, "b": b, "base": base if with_archive else None, "plan": want})
+        sb.destroy()
+    return res
+
+
+def c18_cli_crosscheck(r, n):
+    build("cli")
+    fold(r, run_pool(_c18cli_worker, seed(), n, "c18cli"))
